@@ -21,10 +21,12 @@ fn rows_of(o: &Outcome) -> Result<Vec<RVal>, String> {
 pub fn with_ids(records: &[String]) -> Vec<u8> {
     let mut s = String::new();
     for (i, r) in records.iter().enumerate() {
+        // members whose names end like a sort direction (for `--sort-by=.desc`)
+        let extra = format!("\"desc\":{},\"short_desc\":\"{}\",\"asc\":{}", (i * 7 + 3) % 5, ["b", "a", "c"][i % 3], (i * 3) % 4);
         if r.starts_with('{') && r.len() > 2 {
-            s.push_str(&format!("{{\"id\":{},{}\n", i, &r[1..]));
+            s.push_str(&format!("{{\"id\":{},{},{}\n", i, extra, &r[1..]));
         } else if r == "{}" {
-            s.push_str(&format!("{{\"id\":{}}}\n", i));
+            s.push_str(&format!("{{\"id\":{},{}}}\n", i, extra));
         } else {
             s.push_str(r);
             s.push('\n');
@@ -67,7 +69,17 @@ impl Check for C13Positions {
                 let env = Env::top();
                 // kinds that matter for the positions: Bool (filter), Str (group), Arr (split), anything (sort)
                 let k = *g.tape.pick(&[Bool, Str, Arr, Num, Any, Str, Bool, ArrNum, ArrObj, Bool, Str]);
-                let e = g.expr(k, 4, &env);
+                let mut e = g.expr(k, 4, &env);
+                if g.tape.chance(1, 12) {
+                    // expression texts that end like a direction word
+                    e = match g.tape.below(5) {
+                        0 => Expr::key(0, "desc"),
+                        1 => Expr::key(0, "asc"),
+                        2 => Expr::key(0, "short_desc"),
+                        3 => Expr::call("get", vec![Expr::dot(), Expr::lit("\"desc\"")]),
+                        _ => Expr::call("default", vec![Expr::key(0, "nosuch"), Expr::key(0, "asc")]),
+                    };
+                }
                 let kk = *g.tape.pick(LEAF_KINDS);
                 // input-independent: no paths (empty chain) and no parse_selection (its text may read the input)
                 g.cfg.exclude.push("parse_selection");
